@@ -95,6 +95,17 @@ def check_C17(report, tier, seed):
     E.monitor(report, walks, "C17")
 
 
+def check_C08(report, tier, seed):
+    import suites_engine as S
+    report.rule = ("a simulated minimal driver that calls service only when the reported service time is reached and after each event, "
+                   "against a broker that answers everything; operation mixes, receive maximum 1..10, drain policies, buffer capacities "
+                   "4..4096 (operations spanning many writes), offline submissions, reconnects; distinct by script")
+    gv.theorem_obligations(report, "GV/Props/C08.lean", "GV.Props.C08", audit=True)
+    walks = S.run_strict_walks(seed, tier, 150, 5000)
+    S.correspondence(report, walks, "C08")
+    S.monitor_strict(report, walks, "C08")
+
+
 def check_C19(report, tier, seed):
     import suites_client as S
     report.rule = ("reconnect configurations: base/max/stability from {0, 1 ns, sub-ms, 1 s .. 120 s, 2^63 ns, u64::MAX s, Duration::MAX}, "
@@ -112,7 +123,7 @@ def check_C12(report, tier, seed):
     S.suite_lifecycle(report, tier, seed, "C12")
 
 
-CHECKS = {"C12": check_C12, "C19": check_C19, "C01": check_C01, "C02": check_C02, "C03": check_C03, "C04": check_C04, "C05": check_C05, "C06": check_C06,
+CHECKS = {"C08": check_C08, "C12": check_C12, "C19": check_C19, "C01": check_C01, "C02": check_C02, "C03": check_C03, "C04": check_C04, "C05": check_C05, "C06": check_C06,
           "C07": check_C07, "C09": check_C09, "C10": check_C10, "C11": check_C11, "C14": check_C14, "C15": check_C15,
           "C16": check_C16, "C17": check_C17, "C18": check_C18}
 
